@@ -63,11 +63,17 @@ CONTAINERS = ["moov", "mvex"]
 # ---------------------------------------------------------------- helpers
 
 def drive(lines, ch: Channel):
-    try:
-        return common.run_driver(lines)
-    except Exception as e:
-        ch.errors.append(f"driver: {e}")
-        return ["driver-error"] * len(lines)
+    import time
+    for attempt in range(40):
+        try:
+            return common.run_driver(lines)
+        except FileNotFoundError:
+            time.sleep(3)          # another check is re-linking the shared driver binary
+        except Exception as e:
+            ch.errors.append(f"driver: {e}")
+            return ["driver-error"] * len(lines)
+    ch.errors.append("driver binary missing")
+    return ["driver-error"] * len(lines)
 
 
 _STORED: dict[str, bytes] = {}
@@ -365,8 +371,9 @@ def channels(ctx):
     yield ch
 
     ch2 = Channel("boxwalk", rule=(
-        "the model's box reader parseBoxes (containers moov, mvex) vs the independent walker mp4walk on every stored "
-        "init segment and on served init segments; non-trivial = distinct byte string"))
+        "the model's box reader parseBoxes (containers moov, mvex) and pssh decoder decodePssh vs the independent "
+        "walker mp4walk on every stored init segment, on served init segments and on their pssh boxes; "
+        "non-trivial = distinct byte string"))
     blobs = []
     for m in env.media():
         blobs.append(stored_init(m))
@@ -383,6 +390,22 @@ def channels(ctx):
         ch2.count(f"bytes<={(len(b) // 500 + 1) * 500}")
         if mo != "driver-error" and mo != want:
             ch2.disagreements.append({"bytes": b.hex()[:200], "model": mo[:200], "impl": want[:200]})
+    # pssh boxes of the served init segments: the model's decodePssh vs mp4walk's pssh fields
+    psshs = []
+    for b in blobs:
+        try:
+            psshs += lib.moov_psshs(b)
+        except Exception:
+            pass
+    uniq = {p.raw: p for p in psshs}
+    out = drive([f"decodepssh {lib.hx(r)}" for r in uniq], ch2)
+    for (raw, p), mo in zip(uniq.items(), out):
+        ch2.evaluations += 1
+        ch2.nontrivial.add(raw)
+        ch2.count(f"pssh v{p.version} kids={len(p.kids)}")
+        want = f"{p.version} {lib.hx(p.system_id)} {lib.hexlist(p.kids)} {lib.hx(p.data)}"
+        if mo != "driver-error" and mo != want:
+            ch2.disagreements.append({"what": "decodePssh", "pssh": raw.hex()[:160], "model": mo[:160], "impl": want[:160]})
     # truncated / corrupted inputs must be refused by both
     bad = []
     for b in blobs[:6]:
